@@ -17,6 +17,9 @@ mod common;
 
 use std::io::Write as _;
 use std::panic::{AssertUnwindSafe, catch_unwind};
+use std::sync::atomic::{AtomicBool, AtomicI32, AtomicU64, Ordering};
+use std::sync::{Arc, Mutex};
+use std::time::{Duration, Instant};
 
 use common::*;
 use rand::rngs::StdRng;
@@ -51,6 +54,57 @@ fn pick_len(rng: &mut StdRng, init: usize, max: usize, profile: u32) -> usize {
     if l == D + 1 { D + 2 } else { l }
 }
 
+/// Counters of the run + what the driving thread is doing (for the watchdog: a call into the code under test
+/// that never returns is recorded as a `Hang` event, which no step of the specification explains).
+#[derive(Default)]
+struct Shared {
+    events: AtomicU64,
+    delivered: AtomicU64,
+    errors: AtomicU64,
+    partial_writes: AtomicU64,
+    kernel_partial: AtomicU64,
+    panics: AtomicU64,
+    grown_max: AtomicU64,
+    huge: AtomicU64,
+    runs_started: AtomicU64,
+    tid: AtomicI32,
+    progress: AtomicU64,
+    in_sozu: AtomicBool,
+    call: Mutex<&'static str>,
+    done: AtomicBool,
+}
+
+impl Shared {
+    fn sozu<T>(&self, call: &'static str, f: impl FnOnce() -> T) -> T {
+        *self.call.lock().unwrap_or_else(|e| e.into_inner()) = call;
+        self.in_sozu.store(true, Ordering::SeqCst);
+        let r = f();
+        self.in_sozu.store(false, Ordering::SeqCst);
+        r
+    }
+    fn summary(&self, out_path: &str, runs: usize, init: usize, max: usize, samples: &[Value], aborted: Option<&str>) -> Value {
+        let g = |a: &AtomicU64| a.load(Ordering::SeqCst);
+        json!({
+            "kind": "summary", "trace": out_path, "runs": runs, "events": g(&self.events), "init": init, "max": max,
+            "delivered": g(&self.delivered), "receiver_errors": g(&self.errors), "planned_partial_writes": g(&self.partial_writes),
+            "kernel_partial_writes": g(&self.kernel_partial), "panics": g(&self.panics), "steps_at_max_capacity": g(&self.grown_max),
+            "messages_over_half_max": g(&self.huge), "samples": samples, "aborted": aborted,
+        })
+    }
+}
+
+fn thread_stat(tid: i32) -> Option<(u64, char)> {
+    let s = std::fs::read_to_string(format!("/proc/self/task/{tid}/stat")).ok()?;
+    let rest = &s[s.rfind(')')? + 2..];
+    let f: Vec<&str> = rest.split_whitespace().collect();
+    let state = f.first()?.chars().next()?;
+    Some((f.get(11)?.parse::<u64>().ok()? + f.get(12)?.parse::<u64>().ok()?, state))
+}
+
+fn env_secs(name: &str, default: f64) -> f64 {
+    std::env::var(name).ok().and_then(|v| v.parse().ok()).unwrap_or(default)
+}
+
 fn main() {
     let args: Vec<String> = std::env::args().collect();
     let (mut seed, mut runs, mut steps, mut init, mut max) = (1u64, 10usize, 300usize, 1_000_000usize, 2_000_000usize);
@@ -73,19 +127,79 @@ fn main() {
         eprintln!("drive_channel self-test failed: {e}");
         std::process::exit(3);
     }
-    let mut out = std::io::BufWriter::new(std::fs::File::create(&out_path).expect("trace file"));
+    let out = Arc::new(Mutex::new(std::io::BufWriter::new(std::fs::File::create(&out_path).expect("trace file"))));
     let mut rng = StdRng::seed_from_u64(seed ^ ((init as u64) << 20) ^ max as u64);
-    let mut n_events = 0u64;
-    let (mut delivered, mut errors, mut partial_writes, mut kernel_partial, mut panics, mut grown_max, mut huge) = (0u64, 0u64, 0u64, 0u64, 0u64, 0u64, 0u64);
+    let sh = Arc::new(Shared::default());
+    sh.tid.store(unsafe { libc::syscall(libc::SYS_gettid) } as i32, Ordering::SeqCst);
     let mut samples: Vec<Value> = Vec::new();
+    // ---- watchdog (same rules as replay_channel): CPU burnt / time asleep inside ONE call into sozu is a verdict
+    // about that call (recorded as a `Hang` event); no progress outside the code under test is a tool error
+    {
+        let (sh, out, out_path) = (sh.clone(), out.clone(), out_path.clone());
+        let spin_cpu = env_secs("VERIF_C11_SPIN_CPU_S", 10.0);
+        let block_wall = env_secs("VERIF_C11_BLOCK_S", 40.0);
+        let starve_wall = env_secs("VERIF_C11_STALL_S", 600.0);
+        let harness_wall = env_secs("VERIF_C11_HARNESS_STALL_S", 180.0);
+        std::thread::spawn(move || {
+            let ticks = unsafe { libc::sysconf(libc::_SC_CLK_TCK) }.max(1) as f64;
+            let (mut p0, mut since, mut cpu0, mut asleep_since) = (u64::MAX, Instant::now(), 0u64, None::<Instant>);
+            loop {
+                std::thread::sleep(Duration::from_millis(500));
+                if sh.done.load(Ordering::SeqCst) {
+                    return;
+                }
+                let p = sh.progress.load(Ordering::SeqCst);
+                let Some((cpu, state)) = thread_stat(sh.tid.load(Ordering::SeqCst)) else { continue };
+                if p != p0 {
+                    (p0, since, cpu0, asleep_since) = (p, Instant::now(), cpu, None);
+                    continue;
+                }
+                let in_sozu = sh.in_sozu.load(Ordering::SeqCst);
+                let stalled = since.elapsed().as_secs_f64();
+                let burnt = (cpu - cpu0) as f64 / ticks;
+                if state == 'S' || state == 'D' {
+                    asleep_since.get_or_insert_with(Instant::now);
+                } else {
+                    asleep_since = None;
+                }
+                let asleep = asleep_since.map(|t| t.elapsed().as_secs_f64()).unwrap_or(0.0);
+                if sh.progress.load(Ordering::SeqCst) != p {
+                    continue;
+                }
+                let how = if in_sozu && burnt >= spin_cpu {
+                    Some(format!("burnt {burnt:.1} s of CPU in {stalled:.0} s without returning"))
+                } else if in_sozu && asleep >= block_wall {
+                    Some(format!("blocked in the kernel for {asleep:.0} s on a non-blocking channel"))
+                } else {
+                    None
+                };
+                if let Some(how) = how {
+                    let call = *sh.call.lock().unwrap_or_else(|e| e.into_inner());
+                    let mut o = out.lock().unwrap_or_else(|e| e.into_inner());
+                    let _ = writeln!(o, "{}", json!({"op": "Hang", "call": call, "message": how}));
+                    let _ = o.flush();
+                    sh.events.fetch_add(1, Ordering::SeqCst);
+                    let runs = sh.runs_started.load(Ordering::SeqCst) as usize;
+                    vh::util::emit(&sh.summary(&out_path, runs, init, max, &[], Some("hang of the code under test")));
+                    let _ = std::io::stdout().flush();
+                    std::process::exit(0);
+                }
+                if (!in_sozu && stalled >= harness_wall) || stalled >= starve_wall {
+                    eprintln!("drive_channel: no progress for {stalled:.0} s (in_sozu={in_sozu}, cpu {burnt:.1} s, state {state}): giving up (tool error)");
+                    std::process::exit(4);
+                }
+            }
+        });
+    }
 
     for run in 0..runs {
         let mut rig = Rig::new(init as u64, max as u64).expect("socket pairs");
-        let mut emit = |v: Value, n_events: &mut u64| {
-            let _ = writeln!(out, "{v}");
-            *n_events += 1;
+        sh.runs_started.fetch_add(1, Ordering::SeqCst);
+        let emit = |v: Value| {
+            let _ = writeln!(out.lock().unwrap_or_else(|e| e.into_inner()), "{v}");
+            sh.events.fetch_add(1, Ordering::SeqCst);
         };
-        emit(json!({"op": "reset", "init": init, "max": max, "run": run}), &mut n_events);
+        emit(json!({"op": "reset", "init": init, "max": max, "run": run}));
         let profile = rng.random_range(0..3u32); // 0 mixed, 1 many small then huge, 2 tiny budgets
         let mut next_id = 1u64;
         let mut poisoned = false;
@@ -94,6 +208,7 @@ fn main() {
             let draining = step >= steps; // final phase: only make progress, no new traffic
             let choice = if draining { [25u32, 35, 50, 65, 75, 85, 85][step % 7] } else { rng.random_range(0..100u32) };
             let mut ev: Option<Value> = None;
+            sh.progress.fetch_add(1, Ordering::SeqCst);
             let r = catch_unwind(AssertUnwindSafe(|| -> Option<Value> {
                 match choice {
                     // ---- write_message
@@ -101,7 +216,7 @@ fn main() {
                         let len = if profile == 1 && step == steps / 2 { max - rng.random_range(0..3usize) } else { pick_len(&mut rng, init, max, profile) };
                         let msg = make_msg(next_id, len - D)?;
                         let enc = encode_msg(&msg);
-                        let res = match rig.tx.write_message(&msg) {
+                        let res = match sh.sozu("Write", || rig.tx.write_message(&msg)) {
                             Ok(()) => {
                                 rig.tx_expect.extend(len.to_le_bytes());
                                 rig.tx_expect.extend(enc.iter().copied());
@@ -113,14 +228,14 @@ fn main() {
                         if res == "ok" {
                             next_id += 1;
                             if len > max / 2 {
-                                huge += 1;
+                                sh.huge.fetch_add(1, Ordering::SeqCst);
                             }
                         }
                         Some(json!({"op": "Write", "len": len, "id": id, "h": hash31(&enc), "res": res}))
                     }
                     // ---- handle_events(WRITABLE)
                     20..=29 => {
-                        rig.tx.handle_events(Ready::WRITABLE);
+                        sh.sozu("TxEvents", || rig.tx.handle_events(Ready::WRITABLE));
                         Some(json!({"op": "TxEvents"}))
                     }
                     // ---- writable()
@@ -151,7 +266,7 @@ fn main() {
                         };
                         let planned = plan.is_some();
                         shim_arm(rig.tx_fd, plan);
-                        let r = rig.tx.writable();
+                        let r = sh.sozu("Writable", || rig.tx.writable());
                         let calls = shim_disarm();
                         let chunks: Vec<usize> = calls.iter().filter(|c| c.1 > 0).map(|c| c.1 as usize).collect();
                         let mut e = match r {
@@ -162,7 +277,7 @@ fn main() {
                             e["stream_error"] = json!(s);
                         }
                         if calls.iter().any(|c| c.1 > 0 && (c.1 as usize) < c.0) {
-                            if planned { partial_writes += 1 } else { kernel_partial += 1 }
+                            if planned { sh.partial_writes.fetch_add(1, Ordering::SeqCst) } else { sh.kernel_partial.fetch_add(1, Ordering::SeqCst) };
                         }
                         Some(e)
                     }
@@ -187,11 +302,11 @@ fn main() {
                     }
                     // ---- handle_events(READABLE)
                     60..=69 => {
-                        rig.rx.handle_events(Ready::READABLE);
+                        sh.sozu("RxEvents", || rig.rx.handle_events(Ready::READABLE));
                         Some(json!({"op": "RxEvents"}))
                     }
                     // ---- readable()
-                    70..=79 => match rig.rx.readable() {
+                    70..=79 => match sh.sozu("Readable", || rig.rx.readable()) {
                         Ok(n) => {
                             rig.sock -= n.min(rig.sock);
                             Some(json!({"op": "Readable", "res": "ok", "n": n}))
@@ -199,16 +314,16 @@ fn main() {
                         Err(e) => Some(json!({"op": "Readable", "res": error_name(&e)})),
                     },
                     // ---- read_message()
-                    80..=95 => match rig.rx.read_message() {
+                    80..=95 => match sh.sozu("ReadMessage", || rig.rx.read_message()) {
                         Ok(m) => {
                             let enc = encode_msg(&m);
-                            delivered += 1;
+                            sh.delivered.fetch_add(1, Ordering::SeqCst);
                             Some(json!({"op": "ReadMessage", "res": "ok", "len": enc.len() + D, "h": hash31(&enc)}))
                         }
                         Err(e) => {
                             let name = error_name(&e);
                             if name != "nothing_read" {
-                                errors += 1;
+                                sh.errors.fetch_add(1, Ordering::SeqCst);
                             }
                             Some(json!({"op": "ReadMessage", "res": name, "len": 0, "h": 0}))
                         }
@@ -247,33 +362,45 @@ fn main() {
                 Ok(None) => {}
                 Err(p) => {
                     shim_disarm();
-                    panics += 1;
+                    sh.panics.fetch_add(1, Ordering::SeqCst);
                     poisoned = true;
-                    ev = Some(json!({"op": "Panic", "message": vh::util::panic_message(p)}));
+                    let call = *sh.call.lock().unwrap_or_else(|e| e.into_inner());
+                    ev = Some(json!({"op": "Panic", "call": call, "message": vh::util::panic_message(p)}));
                 }
             }
+            sh.in_sozu.store(false, Ordering::SeqCst);
             if let Some(mut e) = ev {
                 if !poisoned {
-                    e["st"] = rig.project();
+                    // reading the state of the code under test can panic too (position/end beyond the capacity)
+                    match catch_unwind(AssertUnwindSafe(|| {
+                        let v = rig.project();
+                        let _ = rig.rx.front_buf.data().len();
+                        let _ = rig.tx.back_buf.data().len();
+                        v
+                    })) {
+                        Ok(v) => e["st"] = v,
+                        Err(p) => {
+                            sh.panics.fetch_add(1, Ordering::SeqCst);
+                            poisoned = true;
+                            e = json!({"op": "Panic", "call": e["op"], "after": e,
+                                       "message": format!("the buffers cannot be read any more after the call: {}", vh::util::panic_message(p))});
+                        }
+                    }
                     if e["st"]["rx"][2].as_u64() == Some(max as u64) || e["st"]["tx"][2].as_u64() == Some(max as u64) {
-                        grown_max += 1;
+                        sh.grown_max.fetch_add(1, Ordering::SeqCst);
                     }
                 }
                 if samples.len() < 6 && (e["op"] == "ReadMessage" && e["res"] != "nothing_read" && e["res"] != "ok" || e["op"] == "Writable" && e["chunks"].as_array().map(|a| a.len() > 1).unwrap_or(false)) {
                     samples.push(e.clone());
                 }
-                emit(e, &mut n_events);
+                emit(e);
             }
             if poisoned {
                 break;
             }
         }
     }
-    let _ = out.flush();
-    vh::util::emit(&json!({
-        "kind": "summary", "trace": out_path, "runs": runs, "events": n_events, "init": init, "max": max,
-        "delivered": delivered, "receiver_errors": errors, "planned_partial_writes": partial_writes,
-        "kernel_partial_writes": kernel_partial, "panics": panics, "steps_at_max_capacity": grown_max,
-        "messages_over_half_max": huge, "samples": samples,
-    }));
+    sh.done.store(true, Ordering::SeqCst);
+    let _ = out.lock().unwrap_or_else(|e| e.into_inner()).flush();
+    vh::util::emit(&sh.summary(&out_path, runs, init, max, &samples, None));
 }
